@@ -42,6 +42,9 @@ Inductive c16_case :=
    and optionally get_formatted() of the same ExceptionInfo object asked again after a
    further edit of the files *)
 | CaseSess (steps : list (list live_frame * live_exc * str * ei_obs * option str))
+(* the interpreter's real text for a live exception (traceback.format_exception: marker lines,
+   folding, suggestion and all; final newline removed) given to from_string *)
+| CaseFull (fs : list live_frame) (e : live_exc) (full : str) (parsed : res tb)
 (* a call stack without exception: the interpreter's view of the frames below a probe
    (traceback.extract_stack(f, limit=k)), its text (format_stack; no header line), and
    boltons' view: TracebackInfo.from_frame(f, limit=k) via to_dict() and get_formatted(),
@@ -218,6 +221,11 @@ Definition c16_verdict (c : c16_case) : verdict :=
       let '(mp, ms') := model_parse_print text in
       (rtb_eqb mp parsed && rstr_eqb ms' printed, true, false)
   | CaseEI fs e interp o => ei_verdict fs e interp o
+  | CaseFull fs e full parsed =>
+      let T := std_tb P fs e in
+      (rtb_eqb (from_string P full) parsed,
+       negb (wf P T && src_consistent (t_frames T) && is_some (hint_of e)) || rtb_eqb parsed (Ok T),
+       false)
   | CaseStack fs interp o_frames o_fmt o_one o_cur => stack_verdict fs interp o_frames o_fmt o_one o_cur
   | CaseSess steps => sess_verdict steps
   | CaseRe which s groups =>
@@ -232,7 +240,8 @@ Inductive c16_expl :=
 | ExplEI (model : ei_obs) (spec_text : str) (spec_tb : tb)
 | ExplRe (model_groups spec_groups : option (list str))
 | ExplSess (steps : list (ei_obs * str * verdict))
-| ExplStack (model_text spec_text : str).
+| ExplStack (model_text spec_text : str)
+| ExplFull (model_parsed : res tb) (spec_tb : tb).
 
 Definition c16_explain (c : c16_case) : c16_expl :=
   match c with
@@ -242,6 +251,7 @@ Definition c16_explain (c : c16_case) : c16_expl :=
   | CaseRaw text _ _ => let '(a, b) := model_parse_print text in ExplRT a b [] false true
   | CaseEI fs e _ _ => ExplEI (model_ei fs e) (std_text (std_tb P fs e)) (std_tb P fs e)
   | CaseRe which s _ => ExplRe (model_re which s) (spec_re which s)
+  | CaseFull fs e full _ => ExplFull (from_string P full) (std_tb P fs e)
   | CaseStack fs _ _ _ _ _ => ExplStack (tbi_formatted P (map cp_of_live fs)) (L_header ++ NL ++ spec_stack_lines fs)
   | CaseSess steps =>
       ExplSess (map (fun st => let '(fs, e, _, _, _) := st in
